@@ -1,12 +1,60 @@
 /-
-C13 — property theorems (only statements that are proved; helper lemmas live in Proofs*.lean).
+C13 — property theorems.  Only statements; proofs are one-liners over Proofs*.lean.
+
+Vocabulary (all defined in Model*.lean, which the driver executes against the Go code):
+  `run ops`        the trie after the exported operations `ops` (Update with an empty value = Delete)
+  `lookupB t k`    `Trie.Get(k)` (the Go-faithful `tget` on `keybytesToHex k`)
+  `applyMap ops`   the reference key-value map: last write wins, empty value removes
+  `lookup`         specification-level lookup on hex keys (a value answers only the exhausted key)
+  `WF`             the shape invariant (ProofsWF.lean)
+  `rootHash H t`   `Trie.Hash()` for an arbitrary hash function `H`
 -/
-import YouVerif.C13.Proofs
+import YouVerif.C13.ProofsApi
+import YouVerif.C13.ModelHash
 namespace YouVerif.C13
 
-/-- `prefixLen`/`splitCommon` really splits both keys at a common prefix. -/
-theorem split_common_is_split (a b : List Nib) :
-    a = (splitCommon a b).1 ++ (splitCommon a b).2.1 ∧ b = (splitCommon a b).1 ++ (splitCommon a b).2.2 :=
-  splitCommon_spec a b
+/-- **Faithful map**: after any sequence of updates and deletes, `Get` returns exactly the surviving
+value of every key (for all histories and all keys, including keys that are nibble-prefixes of
+others, which the terminator makes prefix-free). -/
+theorem get_after (ops : List Op) (k : List UInt8) : lookupB (run ops) k = applyMap ops k :=
+  lookupB_foldl ops inv_empty k
+
+/-- None of the Go panics (value node met with key left over, key exhausted at a full node or inside
+a short key) is reachable through the exported byte-key API. -/
+theorem api_never_panics (ops : List Op) : runPanics .empty ops = false :=
+  runPanics_false inv_empty ops
+
+/-- The shape invariant holds after every history: insert and delete (with its node collapsing)
+preserve it. -/
+theorem wf_run (ops : List Op) : WF (run ops) := (inv_run ops).1
+
+/-- **Canonical form**: a well-formed trie is determined by the map it stores (general keys, no
+fixed-length or prefix-freeness assumption). -/
+theorem canonical_form {t1 t2 : Node} (h1 : WF t1) (h2 : WF t2)
+    (heq : ∀ key, lookup t1 key = lookup t2 key) : t1 = t2 :=
+  canonical h1 h2 heq
+
+/-- Histories with the same surviving content build the same tree … -/
+theorem run_determined_by_content (ops1 ops2 : List Op)
+    (h : ∀ k, applyMap ops1 k = applyMap ops2 k) : run ops1 = run ops2 :=
+  canonical_api (inv_run ops1) (inv_run ops2) (fun k => by rw [get_after, get_after, h])
+
+/-- … hence the same root hash, for any hash function: the root is independent of history. -/
+theorem root_history_independent (H : Hash) (ops1 ops2 : List Op)
+    (h : ∀ k, applyMap ops1 k = applyMap ops2 k) : rootHash H (run ops1) = rootHash H (run ops2) := by
+  rw [run_determined_by_content ops1 ops2 h]
+
+/-! Non-vacuity (tests on literals): the hypotheses are met by concrete, non-trivial histories. -/
+
+-- two different histories (one with an overwritten and a deleted key, and a key that is a prefix of
+-- another) with the same surviving content
+example : ∀ k, applyMap [([1], [7]), ([1, 2], [8])] k =
+               applyMap [([1, 2], [9]), ([3], [5]), ([1], [7]), ([3], []), ([1, 2], [8])] k := by
+  intro k
+  simp only [applyMap, List.foldl, stepMap]
+  by_cases h1 : k = [1, 2] <;> by_cases h2 : k = [1] <;> by_cases h3 : k = [3] <;> simp_all
+
+example : applyMap [([1], [7]), ([1, 2], [8]), ([1], [])] [1, 2] = some [8] := by decide
+example : applyMap [([1], [7]), ([1, 2], [8]), ([1], [])] [1] = none := by decide
 
 end YouVerif.C13
